@@ -63,7 +63,22 @@ def run_case(case, ctx):
     spec = {n: getattr(pc, n) for n in names} if case['metric'] == 'dict' else \
         getattr(pc, case['metric'])
     try:
-        model, sn = snlib.convert_sn(desc, case['seed'], cost=spec, full_cost=case['full_cost'])
+        if (case['seed'] // 5) % 4 == 3:
+            # the same seed network had already been wrapped (and its cost queried) with an input
+            # of another resolution: nothing of that may survive in the second wrapper
+            from plinio.methods import SuperNet
+            model = snlib.build_sn(desc, case['seed'])
+            c0, H, W = desc['input']
+            first = SuperNet(model, cost=spec, input_example=torch.randn(1, c0, H + 3, W + 2),
+                             full_cost=case['full_cost'])
+            for n in names:
+                first.get_cost(n) if case['metric'] == 'dict' else first.cost
+            sn = SuperNet(model, cost=spec, input_example=snlib.sn_input(desc, case['seed'], 1),
+                          full_cost=case['full_cost'])
+            ctx.cls('rewrapped-at-other-resolution')
+        else:
+            model, sn = snlib.convert_sn(desc, case['seed'], cost=spec,
+                                         full_cost=case['full_cost'])
     except Exception as e:
         ctx.skip(type(e).__name__ + ': ' + str(e)[:80])
         return
